@@ -390,6 +390,26 @@ Proof.
       destruct (padAll || (N.min (o + k) ((L + 1) * tl) <=? L * tl + rlen (T L))); f_equal; lia.
 Qed.
 
+Lemma read_tracts_specN : forall tl T k o padAll, 0 < tl ->
+  forall c j L,
+  0 < c -> L + 1 = j + c -> 0 < k -> j * tl <= o -> o < (j + 1) * tl -> L * tl < o + k ->
+  let rs := read_tracts tl (N.to_nat c) j T k o 0 in
+  let D := concat (map snd rs) in
+  let gend := N.min (o + k) ((L + 1) * tl) in
+  let stored := L * tl + rlen (T L) in
+  o + rlen D = gend /\
+  (forall y, y < rlen D -> rget D y = tget tl T (o + y)) /\
+  fold_results padAll (map fst rs) 0 E_OK =
+    (if padAll || (gend <=? stored) then (gend - o, E_OK)
+     else (N.max (N.max o (L * tl)) stored - o, E_EOF)).
+Proof.
+  intros tl T k o padAll Htl c j L Hc HL Hk H1 H2 H3.
+  pose proof (read_tracts_spec tl T k o padAll Htl (N.to_nat c) j 0 0) as R.
+  cbv zeta in R. rewrite N2Nat.id, !N.add_0_r, !N.add_0_l in R.
+  replace (j + c - 1) with L in R by lia.
+  cbv zeta. apply R; auto; lia.
+Qed.
+
 Lemma blen_bounds : forall tl T n, 0 < tl -> wf tl T n ->
   blen tl T n <= n * tl /\ (0 < n -> (n - 1) * tl < blen tl T n) /\ (n = 0 -> blen tl T n = 0).
 Proof.
@@ -405,7 +425,7 @@ Proof.
   specialize (W1 (n - 1)). specialize (W3 Hn).
   destruct (N.eqb_spec (rlen (T (n - 1))) tl) as [E|E].
   - rewrite E. replace ((n - 1) * tl + tl) with (n * tl) by nia. rewrite N.mod_mul by lia. reflexivity.
-  - destruct (div_mod_tract tl ((n - 1) * tl + rlen (T (n - 1))) (n - 1) Htl) as [_ Hm]; try lia.
+  - destruct (div_mod_tract tl ((n - 1) * tl + rlen (T (n - 1))) (n - 1) Htl) as [_ Hm]; [lia | lia |].
     rewrite Hm. apply N.eqb_neq. lia.
 Qed.
 
@@ -435,50 +455,51 @@ Proof.
   destruct (blen_bounds tl (tracts st) n Htl Hwf) as (B1 & B2 & B3). fold len in B1, B2, B3.
   destruct (get_tracts st start (e + 1)) as [[f c] st0] eqn:Hg.
   destruct (get_tracts_spec st start (e + 1) f c st0 Hc ltac:(lia) Hg) as (Gf & Gc & G1 & G2 & G3 & G4 & G5 & G6 & G7).
-  fold n in Gf, Gc.
+  fold n in Gf, Gc, G2.
   assert (Hsame : same_handle st st0) by (unfold same_handle; tauto).
+  assert (HlenE : 0 < n -> len = (n - 1) * tl + rlen (tracts st (n - 1))).
+  { intro. unfold len, blen. fold n. destruct (N.eqb_spec n 0); [lia|reflexivity]. }
+  assert (HmodE : 0 < n -> (len mod tl =? 0) = (rlen (tracts st (n - 1)) =? tl)).
+  { intro. apply blen_mod; auto. }
+  destruct Hwf as (W1 & W2 & W3). specialize (W1 (n - 1)). clear W2 W3 Hg Hc.
+  clearbody start e n len o.
   destruct (N.eqb_spec c 0) as [Hc0|Hc0].
   - (* nothing returned: the read starts beyond the last tract *)
     inversion H; subst r st'. clear H. cbn [fst snd rlen].
     assert (n <= start) by lia.
     assert (n * tl <= start * tl) by (apply N.mul_le_mono_r; lia).
     unfold full_tail_in. destruct (N.ltb_spec len (o + k)); [|lia].
-    destruct (N.ltb_spec o len); [lia|]. rewrite !andb_false_r, andb_false_l.
-    repeat split; auto; try lia. intros; lia.
+    destruct (N.ltb_spec o len); [lia|].
+    destruct (negb (fix16 v)), (0 <? len), (len mod tl =? 0); cbn [andb];
+      (repeat split; auto; try lia; intros; lia).
   - assert (Hsn : start < n) by lia. assert (Hn0 : 0 < n) by lia. specialize (B2 Hn0).
-    assert (f = start) by lia. subst f. rewrite G1 in H.
-    assert (Hlen : len = (n - 1) * tl + rlen (tracts st (n - 1))).
-    { unfold len, blen. fold n. destruct (N.eqb_spec n 0); [lia|reflexivity]. }
-    destruct (N.eqb_spec c (e + 1 - start)) as [Hpad|Hpad].
+    assert (Hf : f = start) by lia. rewrite Hf, G1 in H. clear Hf Gf.
+    pose proof (HlenE Hn0) as Hlen. pose proof (HmodE Hn0) as Hmod. clear HlenE HmodE.
+    revert H. destruct (N.eqb_spec c (e + 1 - start)) as [Hpad|Hpad]; intro H.
     + (* the look-ahead tract exists: every tract of the range is padded *)
       assert (He : e + 1 <= n) by lia.
-      pose proof (read_tracts_spec tl (tracts st) k o true Htl (N.to_nat (c - 1)) start 0 0) as R.
-      cbv zeta in R. rewrite N2Nat.id, N.add_0_r in R.
-      replace (start + (c - 1) - 1) with (e - 1) in R by lia.
-      replace ((e - 1 + 1) * tl) with (e * tl) in R by (f_equal; lia).
-      destruct R as (R1 & R2 & R3); try lia.
-      { replace (e - 1) with (start + (c - 1) - 1) by lia. lia. }
+      assert (Hel : (e - 1) * tl < o + k) by lia.
+      destruct (read_tracts_specN tl (tracts st) k o true Htl (c - 1) start (e - 1)) as (R1 & R2 & R3); try lia.
+      cbv zeta in R1, R2, R3.
+      replace ((e - 1 + 1) * tl) with (e * tl) in R1, R3 by (f_equal; lia).
       rewrite R3 in H. cbn [orb] in H.
       assert (e * tl <= (n - 1) * tl) by (apply N.mul_le_mono_r; lia).
       replace (N.min (o + k) (e * tl)) with (o + k) in * by lia.
-      replace (0 + (o + k - o)) with k in H by lia.
+      replace (o + k - o) with k in H by lia.
       rewrite N.ltb_irrefl, andb_false_r in H.
       inversion H; subst r st'. clear H. cbn [fst snd].
       destruct (N.ltb_spec len (o + k)); [lia|].
       split; [lia|]. split; [rewrite rlen_rtake; lia|]. split.
-      * intros y Hy. rewrite rget_rtake. destruct (N.ltb_spec y k); [|lia]. rewrite R2 by lia. f_equal. lia.
+      * intros y Hy. rewrite rget_rtake. destruct (N.ltb_spec y k); [|lia]. rewrite R2 by lia. reflexivity.
       * repeat split; auto.
     + (* the range includes the blob's last tract *)
       assert (He : n <= e) by lia. assert (c = n - start) by lia. subst c.
-      pose proof (read_tracts_spec tl (tracts st) k o false Htl (N.to_nat (n - start)) start 0 0) as R.
-      cbv zeta in R. rewrite N2Nat.id, N.add_0_r in R.
-      replace (start + (n - start) - 1) with (n - 1) in R by lia.
-      replace ((n - 1 + 1) * tl) with (n * tl) in R by (f_equal; lia).
-      destruct R as (R1 & R2 & R3); try lia.
+      assert (Hnl : (n - 1) * tl < o + k).
       { assert ((n - 1) * tl <= (e - 1) * tl) by (apply N.mul_le_mono_r; lia). lia. }
+      destruct (read_tracts_specN tl (tracts st) k o false Htl (n - start) start (n - 1)) as (R1 & R2 & R3); try lia.
+      cbv zeta in R1, R2, R3.
+      replace ((n - 1 + 1) * tl) with (n * tl) in R1, R3 by (f_equal; lia).
       rewrite R3 in H. cbn [orb] in H. rewrite <- Hlen in *.
-      pose proof (blen_mod tl (tracts st) n Htl Hwf Hn0) as Hmod. fold len in Hmod.
-      destruct Hwf as (W1 & W2 & W3). specialize (W1 (n - 1)).
       assert (Hsn' : (start + 1) * tl <= n * tl) by (apply N.mul_le_mono_r; lia).
       unfold full_tail_in. rewrite Hmod.
       destruct (N.leb_spec (N.min (o + k) (n * tl)) len) as [Hge|Hlt].
@@ -487,22 +508,22 @@ Proof.
         inversion H; subst r st'. clear H. cbn [fst snd].
         split; [lia|]. split; [rewrite rlen_rtake; lia|]. split.
         { intros y Hy. rewrite rget_rtake.
-          destruct (N.ltb_spec y (0 + (N.min (o + k) (n * tl) - o))); [|lia]. rewrite R2 by lia. f_equal. lia. }
+          destruct (N.ltb_spec y (N.min (o + k) (n * tl) - o)); [|lia]. rewrite R2 by lia. reflexivity. }
         split; [|repeat split; auto].
         destruct (N.ltb_spec len (o + k)).
         { (* F16: the last tract is full and the range runs past it *)
           assert (rlen (tracts st (n - 1)) = tl) by lia.
           destruct (N.ltb_spec 0 len), (N.eqb_spec (rlen (tracts st (n - 1))) tl), (N.ltb_spec o len); try lia.
           cbn [andb]. rewrite andb_true_r.
-          destruct (N.ltb_spec (0 + (N.min (o + k) (n * tl) - o)) k); [|lia].
+          destruct (N.ltb_spec (N.min (o + k) (n * tl) - o) k); [|lia].
           destruct (fix16 v); reflexivity. }
-        { destruct (N.ltb_spec (0 + (N.min (o + k) (n * tl) - o)) k); [lia|]. rewrite andb_false_r. reflexivity. }
+        { destruct (N.ltb_spec (N.min (o + k) (n * tl) - o) k); [lia|]. rewrite andb_false_r. reflexivity. }
       * (* the last tract is short inside the range: EOF from the tractserver *)
         change (E_EOF =? E_OK) with false in H. rewrite andb_false_r, andb_false_l in H.
         inversion H; subst r st'. clear H. cbn [fst snd].
         split; [lia|]. split; [rewrite rlen_rtake; lia|]. split.
         { intros y Hy. rewrite rget_rtake.
-          destruct (N.ltb_spec y (0 + (N.max (N.max o ((n - 1) * tl)) len - o))); [|lia]. rewrite R2 by lia. f_equal. lia. }
+          destruct (N.ltb_spec y (N.max (N.max o ((n - 1) * tl)) len - o)); [|lia]. rewrite R2 by lia. reflexivity. }
         split; [|repeat split; auto].
         destruct (N.ltb_spec len (o + k)); [|lia].
         destruct (N.eqb_spec (rlen (tracts st (n - 1))) tl); [lia|].
